@@ -158,6 +158,16 @@ Proof.
   cbn [app dot]. rewrite IH by lia. reflexivity.
 Qed.
 
+Lemma finitediff_row_expr : forall p nspl (c : nat -> K) row, (row + p < nspl)%nat ->
+  dot (vzero row ++ divided_diffs kn order p row ++ vzero (nspl - row - p - 1)) (map c (seq 0 nspl)) = dcoef p c row.
+Proof.
+  intros p nspl c row H.
+  rewrite dot_vzero_app, dot_app_vzero_r, skipn_map_seq by lia.
+  replace (nspl - row)%nat with (S p + (nspl - row - S p))%nat by lia.
+  rewrite seq_app, map_app, dot_prefix by (rewrite dd_length, map_length, seq_length; reflexivity).
+  apply stencil_is_iterated_difference.
+Qed.
+
 Theorem finitediff_row_is_iterated_difference : forall p nspl (c : nat -> K) row, (row + p < nspl)%nat ->
   dot (nth row (finitediff kn order p nspl) []) (map c (seq 0 nspl)) = dcoef p c row.
 Proof.
@@ -166,10 +176,7 @@ Proof.
     by (rewrite map_length, seq_length; lia).
   rewrite (map_nth (fun r => vzero r ++ divided_diffs kn order p r ++ vzero (nspl - r - p - 1)) (seq 0 (nspl - p)) 0%nat row).
   rewrite seq_nth by lia. cbn [Nat.add].
-  rewrite dot_vzero_app, dot_app_vzero_r, skipn_map_seq by lia.
-  replace (nspl - row)%nat with (S p + (nspl - row - S p))%nat by lia.
-  rewrite seq_app, map_app, dot_prefix by (rewrite dd_length, map_length, seq_length; reflexivity).
-  apply stencil_is_iterated_difference.
+  apply finitediff_row_expr. exact H.
 Qed.
 
 End Stencil.
